@@ -191,8 +191,39 @@ func spec_userAction(r int, dollarDolar *StateSym, Dollar []StateSym)
 // =============================================================================================
 //@ section global
 //@ def freshStackAfterInit() = fresh(backing(StateSymStack))
+
+// C15 / C07 / C01 (global mode): a semantic action may run an independent nested parse between PushContex() and PopContex().
+// The saved contexts form a stack: PushContex appends exactly the current (stack, stack pointer) and leaves the earlier
+// entries alone; PopContex restores exactly the LAST saved pair - the stack pointer that was saved, not the length of the
+// array - and removes that entry only. (Pop after Push therefore gives back the state before Push, at every nesting depth.)
+//@ func PushContex
+//@ props C15 C07 C01 C08
+//@ ensures [C15,C07,C01,C08] len(globalContext) == old(len(globalContext)) + 1 &&
+//@     globalContext[old(len(globalContext))].StackSym == StateSymStack && globalContext[old(len(globalContext))].Stackpos == StackPointer
+//@ ensures [C15,C07,C01,C08] forall k int :: 0 <= k && k < old(len(globalContext)) ==> globalContext[k] == old(globalContext[k])
+//@ modifies globalContext
+
+//@ func PopContex
+//@ props C15 C07 C01 C08
+//@ requires len(globalContext) >= 1
+//@ ensures [C15,C07,C01,C08] StackPointer == old(globalContext[len(globalContext)-1].Stackpos) && StateSymStack == old(globalContext[len(globalContext)-1].StackSym)
+//@ ensures [C15,C07,C01,C08] len(globalContext) == old(len(globalContext)) - 1
+//@ ensures [C15,C07,C01,C08] forall k int :: 0 <= k && k < len(globalContext) ==> globalContext[k] == old(globalContext[k])
+//@ modifies StateSymStack, StackPointer, globalContext
 //@ section goObject
 //@ def freshStackAfterInit() = true
+
+// C15: a context from MakeParserContext() is a NEW object in the initial configuration (one entry: state 0, end marker, zero
+// value) - nothing of it is shared with any other context
+//@ func MakeParserContext
+//@ props C15 C08
+//@ results ctx
+//@ ensures [C15,C08] ctx != nil && fresh(ctx) && ctx.Stackpos == 1 && len(ctx.StackSym) >= 1
+//@ ensures [C15,C08] ctx.StackSym[0].Yystate == 0 && ctx.StackSym[0].YySymIndex == 1 && ctx.StackSym[0].ValType == ValType{}
+//@ ensures [C15,C08] forall o *Context :: old(allocated(o)) ==> o.Stackpos == old(o.Stackpos) && o.StackSym == old(o.StackSym)
+//@ modifies nothing
+//@ allocates Context
+//@ allocates arrays
 
 // =============================================================================================
 //@ section goCode unpacked
